@@ -80,11 +80,14 @@ def o_parse(root: FST, sig: str, mode: str = 'exec'):
     """C01 oracle: the source parsed from scratch by CPython equals the live tree incl. every position."""
     src = root.src
     try:
-        t = ast.parse(src, mode=mode)
+        t = ast.parse(src, mode='exec' if mode == 'stmt' else mode)
     except SyntaxError as e:
         fail(sig + '.src_unparsable', (src, str(e)))
     if mode == 'eval':
         t = t.body
+    elif mode == 'stmt':      # a standalone statement root
+        check(len(t.body) == 1, sig + '.not_a_single_statement', (src,))
+        t = t.body[0]
     realize_tree(root.a)
     d1 = ast.dump(t, include_attributes=True)
     d2 = ast.dump(root.a, include_attributes=True)
